@@ -9,6 +9,7 @@ mod util;
 mod p01;
 mod p03;
 mod peph;
+mod p12;
 // MODULES (keep this list and the two dispatch tables below in sync)
 
 use std::io::{self, BufRead, Write, BufWriter};
@@ -16,6 +17,7 @@ use std::io::{self, BufRead, Write, BufWriter};
 pub fn dispatch_exec(op: &str, a: &[i64]) -> Option<String> {
   if let Some(r) = p01::exec(op, a) { return r; }
   if let Some(r) = p03::exec(op, a) { return r; }
+  if let Some(r) = p12::exec(op, a) { return r; }
   // DISPATCH-EXEC
   Some("bad-op".to_string())
 }
@@ -24,6 +26,7 @@ pub fn dispatch_enum(name: &str, args: &[String], w: &mut dyn Write) -> bool {
   if p01::run_enum(name, args, w) { return true; }
   if p03::run_enum(name, args, w) { return true; }
   if peph::run_enum(name, args, w) { return true; }
+  if p12::run_enum(name, args, w) { return true; }
   // DISPATCH-ENUM
   false
 }
